@@ -67,8 +67,10 @@ class CHECK(core.Check):
     LEVEL_TEXT = ("Full proofs on the exact model for all rational angles/wraps: C43_wrap1_range_pos/_neg (half-open "
                   "range), C43_wrap1_congruent, C43_wrap1_unique, C43_wrap1_idempotent, C43_wrap2_range (closed range, "
                   "with the exact open side), C43_wrap2_congruent (whole turns of 2*wrap), C43_delta_is_wrap2_diff, "
-                  "C43_delta_short_and_correct, C43_wrap_zero_id. IEEE binary64 rounding: outside the theorems "
-                  "(C43_float_agrees_partial, C43_counterexample_float), tied by a second, rounded instantiation.")
+                  "C43_delta_short_and_correct, C43_wrap_zero_id. IEEE binary64 (second, rounded instantiation, tied "
+                  "bit for bit to the implementation): the half-open range fails (C43_counterexample_float), proved "
+                  "instead: the CLOSED ranges C43_float_wrap1_closed_range, C43_float_wrap2_range, "
+                  "C43_float_delta_range (rounding to nearest is monotone), and C43_float_agrees_partial.")
     LEVEL_NOTE = ("Trusted: Lean kernel; axioms propext, Classical.choice, Quot.sound; transcription of navigating.py "
                   "validated by the correspondence runs. Not covered: NaN/inf arguments, overflow of wrap*2.0, "
                   "subnormal results, non-numeric arguments.")
